@@ -13,6 +13,7 @@ CONSTANTS
   PertKinds <- K_All
   NumSyss <- N_Lin
   RrefFlags <- FL_Two
+  MaxEvals = 1
 INVARIANT TypeOK
 INVARIANT BackwardConstructionIsEquilibrium
 INVARIANT PerturbationBreaksOneClause
